@@ -181,10 +181,10 @@ namespace vf {
     std::string enc_float(F x)
     {
         if (x != x) {
-            return "\"nan\"";
+            return "{\"c\":\"nan\",\"n\":0,\"e\":0,\"m\":[0]}";
         }
         if (x - x != 0) {
-            return x > 0 ? "\"inf\"" : "\"-inf\"";
+            return x > 0 ? "{\"c\":\"inf\",\"n\":0,\"e\":0,\"m\":[0]}" : "{\"c\":\"inf\",\"n\":1,\"e\":0,\"m\":[0]}";
         }
         bool neg = std::signbit(x);
         long double a = neg ? -static_cast<long double>(x) : static_cast<long double>(x);
@@ -201,7 +201,7 @@ namespace vf {
                 ++e;
             }
         }
-        std::string s = "{\"n\":";
+        std::string s = "{\"c\":\"fin\",\"n\":";
         s += neg ? "1" : "0";
         s += ",\"e\":" + std::to_string(e) + ",\"m\":[0";
         enc_mag(s, m);
